@@ -16,6 +16,7 @@ use std::sync::Mutex;
 use std::time::Instant;
 
 pub const POOL_LIMIT: usize = 65535;
+pub const NKINDS: u64 = 25;
 
 struct B {
     ops: Vec<OpRec>,
@@ -101,6 +102,7 @@ fn pool_image(total: usize, long_refs: bool, rng: &mut Prng) -> ForeignSpec {
             shuffle_catalog: false,
             catalog_first: false,
             stale_validation: Vec::new(),
+            saturate: None,
         }
     };
     // the catalog contributes its own strings: measure, then size the table
@@ -118,7 +120,7 @@ fn new_str(i: u32) -> Val {
 pub fn scenario(seed: u64, idx: u64) -> Trace {
     let mut rng = Prng::new(mix(&[seed, idx, 0x20]));
     let mut b = B::new();
-    let kind = idx % 24;
+    let kind = idx % NKINDS;
     let created = Init::Create(*rng.pick(&[PType::Installer, PType::Patch]));
     match kind {
         // ---- 32 columns
@@ -274,6 +276,12 @@ pub fn scenario(seed: u64, idx: u64) -> Trace {
             for l in [30usize, 31, 32] {
                 b.push(Op::WriteStream { name: "é".repeat(l), dseed: l as u32, steps: vec![WStep::Write(10)] });
             }
+            // outside the BMP a character takes two of the 31 UTF-16 units
+            for l in [15usize, 16] {
+                b.push(Op::WriteStream { name: "😀".repeat(l), dseed: 100 + l as u32, steps: vec![WStep::Write(10)] });
+            }
+            b.push(Op::WriteStream { name: format!("😀{}", "-".repeat(30)), dseed: 120, steps: vec![WStep::Write(10)] });
+            b.push(Op::WriteStream { name: format!("😀{}", "-".repeat(29)), dseed: 121, steps: vec![WStep::Write(10)] });
             b.push(Op::Observe);
             b.restart(&mut rng);
             trace(seed, idx, created, b.ops, &mut rng)
@@ -298,12 +306,25 @@ pub fn scenario(seed: u64, idx: u64) -> Trace {
             let s = Val::Str("Q77Qshared".into());
             let rows: Vec<Vec<Val>> = (0..32768 + rng.below(3) as i32).map(|i| vec![Val::Int(i), s.clone(), s.clone()]).collect();
             b.push(Op::Insert { table: "Same".into(), rows });
+            b.push(Op::Observe);
             b.restart(&mut rng);
             b.push(Op::Delete { table: "Same".into(), cond: Some(Cond::Cmp("K".into(), CmpOp::Lt, Val::Int(10))) });
             b.push(Op::Update { table: "Same".into(), sets: vec![("B".into(), Val::Null)], cond: Some(Cond::Cmp("K".into(), CmpOp::Lt, Val::Int(100))) });
             b.push(Op::Observe);
             b.restart(&mut rng);
             trace(seed, idx, created, b.ops, &mut rng)
+        }
+        // ---- full pool and a string whose 16-bit reference count is saturated
+        24 => {
+            let mut spec = pool_image(POOL_LIMIT - (idx / NKINDS % 2) as usize, false, &mut rng);
+            let sat = format!("Q{}Q", 700_007);
+            spec.saturate = Some(sat.clone());
+            // one more reference to it needs a second entry: there may be no room
+            b.push(Op::Insert { table: "P".into(), rows: vec![vec![Val::Int(1_000_001), Val::Str(sat.clone())]] });
+            b.push(Op::Observe);
+            b.push(Op::Update { table: "P".into(), sets: vec![("S".into(), Val::Str(sat))], cond: Some(Cond::Cmp("K".into(), CmpOp::Eq, Val::Int(9))) });
+            b.restart(&mut rng);
+            trace(seed, idx, Init::Foreign(Box::new(spec)), b.ops, &mut rng)
         }
         // ---- a seeded ordinary history on top of a near-full pool
         _ => {
@@ -320,7 +341,7 @@ pub fn scenario(seed: u64, idx: u64) -> Trace {
 pub fn check(tier: &str, seed: u64) -> i32 {
     let thorough = tier == "thorough";
     let scale: f64 = std::env::var("VERIF_SCALE").ok().and_then(|s| s.parse().ok()).unwrap_or(1.0);
-    let n = (((if thorough { 24 * 40 } else { 24 * 3 }) as f64) * scale).max(1.0) as u64;
+    let n = (((if thorough { NKINDS * 40 } else { NKINDS * 3 }) as f64) * scale).max(1.0) as u64;
     let t0 = Instant::now();
     let known = load_known();
     let next = AtomicU64::new(0);
@@ -343,7 +364,7 @@ pub fn check(tier: &str, seed: u64) -> i32 {
                     Ok((t, r)) => {
                         let mut a = agg.lock().unwrap();
                         local_absorb(&mut a, &t, &r.stats, idx);
-                        *kinds.lock().unwrap().entry(idx % 24).or_insert(0) += 1;
+                        *kinds.lock().unwrap().entry(idx % NKINDS).or_insert(0) += 1;
                         if let Some(v) = r.violations.iter().find(|v| v.property() == "C20") {
                             found.lock().unwrap().push(Found { trace: t, violation: v.clone() });
                         } else if let Some(v) = r.violations.first() {
@@ -390,7 +411,7 @@ pub fn check(tier: &str, seed: u64) -> i32 {
     let mut extra = BTreeMap::new();
     extra.insert(
         "scenario_kinds".to_string(),
-        serde_json::json!("0-2 columns 31/32/33; 3-5 rows 65535/65536/65537 in one batch; 6-7 rows incrementally (with restarts); 8 rows after deletions; 9-16 string pool at L-1/L with two-byte references (insert, batch, delete-then-insert, update, create_table, restart in between); 17 three-byte references; 18-19 table/column name lengths; 20 stream name lengths; 21 string widths 254/255/256; 22 16-bit refcount saturation; 23 seeded history on a near-full pool"),
+        serde_json::json!("0-2 columns 31/32/33; 3-5 rows 65535/65536/65537 in one batch; 6-7 rows incrementally (with restarts); 8 rows after deletions; 9-16 string pool at L-1/L with two-byte references (insert, batch, delete-then-insert, update, create_table, restart in between); 17 three-byte references; 18-19 table/column name lengths; 20 stream name lengths; 21 string widths 254/255/256; 22 16-bit refcount saturation; 23 seeded history on a near-full pool; 24 full pool plus a string with a saturated refcount"),
     );
     extra.insert("scenarios_per_kind".to_string(), serde_json::json!(kinds.into_inner().unwrap().into_iter().map(|(k, v)| (k.to_string(), v)).collect::<BTreeMap<_, _>>()));
     let rep = CheckReport {
